@@ -26,6 +26,15 @@ var handlers = map[string]Handler{}
 
 func Register(kind string, h Handler) { handlers[kind] = h }
 
+// Call runs a registered handler in this process (debugging aid).
+func Call(kind string, arg json.RawMessage) (interface{}, error) {
+	h := handlers[kind]
+	if h == nil {
+		return nil, fmt.Errorf("no handler %q", kind)
+	}
+	return h(arg)
+}
+
 type jobMsg struct {
 	Kind string          `json:"k"`
 	Arg  json.RawMessage `json:"a"`
